@@ -22,7 +22,9 @@ LEVEL_TEXT = ('Unbounded Lean theorems: (a) ALL SIZES of the hand-modelled class
               'RotatedToric3DCode Lx,Ly>=2 not both odd, Lz>=1 (k=2 even x even, k=1 with a defect line; explicit family of '
               'n-k independent generators for both parities) -- all with the full valid_code incl. rank; Color3DCode all L_i '
               'even >= 2 (wf of the derived qubit list, commutation, the 9x9 pairing table of strings and membranes; periodic '
-              'wrap removed through centred differences, overlaps as kernel-evaluated finite functions; rank by instances), '
+              'wrap removed through centred differences, overlaps as kernel-evaluated finite functions; Z-type half of the rank '
+              'clause for every size: z_generators_independent_partial, 2 LxLyLz - 3 independent cell generators with a peeling '
+              'order, evaluated on the implementation matrix each run; X-type half and full rank by instances), '
               'HollowRhombicCode Lx,Ly>=2, Lz>=3 (wf, commutation incl. the key-count selection rule of the triangle loop, '
               'pairing; rank by instances, and the NEGATIVE theorems thin_hole_family_x/_y/_z: for EVERY size with a hole one '
               'layer thin (Lx=3, Ly,Lz>=6; Ly=4, Lx>=5, Lz>=6; Lz=4, Lx>=5, Ly>=6) an undeclared second logical pair exists, '
